@@ -68,7 +68,9 @@ func c02MarkTable(e *Env, s *Sched) {
 			continue
 		}
 		if isConst {
-			cases = append(cases, markCase{ev, k, e.DCS(ev.Site)})
+			for _, w := range e.waysTo(ev.Site) {
+				cases = append(cases, markCase{ev, k, w})
+			}
 			continue
 		}
 		// the mark chosen by a classifier helper (`blocked, mark, cause := verdict(dep)`):
@@ -87,16 +89,58 @@ func c02MarkTable(e *Env, s *Sched) {
 				}
 			}
 		}
+		// the mark read from a constant table (`block, ok := blocks[depStatus]; node.setStatus(block.status)`):
+		// one case per entry
+		if !split {
+			if lk, which, field, ents, ok := e.tableLookup(ir.Deep(ev.Val)); ok && which == 0 {
+				split = true
+				for _, tc := range tableCases(lk, ents) {
+					if tc.Entry == nil {
+						continue // the miss: judged through the ok test below (infeasible under `ok`)
+					}
+					kv, isC := ir.ConstInt(tc.Value(field))
+					if tc.Value(field) == nil || !isC {
+						split = false
+						break
+					}
+					// this entry together with the conditions of the store; an `ok` test of
+					// the same lookup is satisfied by construction
+					var lits []ir.NLit
+					feasible := true
+					for _, l := range e.DCS(ev.Site) {
+						if l.Kind == "val" {
+							if lk2, w2, _, _, ok2 := e.tableLookup(l.V); ok2 && lk2 == lk && w2 == 1 {
+								if !l.Pol {
+									feasible = false
+								}
+								continue
+							}
+						}
+						lits = append(lits, l)
+					}
+					if feasible {
+						cases = append(cases, markCase{ev, kv, append(lits, tc.Lits...)})
+					}
+				}
+			}
+		}
 		if !split {
 			r.Unknown("isReady: non-constant status mark", pos, "value written: "+e.C.Render(ev.Val))
 		}
 	}
+	// conditions written through helpers of the readiness function are expanded
+	var expanded []markCase
 	for _, mc := range cases {
+		for _, lits := range e.expandHelperCalls(mc.lits, 0) {
+			expanded = append(expanded, markCase{mc.ev, mc.k, lits})
+		}
+	}
+	for _, mc := range expanded {
 		ev, k, lits := mc.ev, mc.k, mc.lits
 		pos := e.InstrPos(ev.Site)
 		var depRoot ssa.Value
 		isDepStatus := func(v ssa.Value) bool {
-			p, ok := e.C.PathOf(v)
+			p, ok := e.pathThroughParams(v)
 			if !ok || !p.Suffix("State.Status") || sameNode(p.Root, nodeParam) {
 				return false
 			}
@@ -104,6 +148,9 @@ func c02MarkTable(e *Env, s *Sched) {
 			return true
 		}
 		set := ir.Restrict(lits, isDepStatus, s.NS)
+		if len(set) == 0 {
+			continue // an infeasible way (contradictory tests of the dependency's status)
+		}
 		cons := "isReady: dependent:=" + s.name(k) + " when dependency ∈ {" + strings.Join(set.Names(s.NS), ",") + "}"
 		ok, why := true, ""
 		notLicensed := func(field string) bool {
